@@ -254,6 +254,32 @@ def polytope_forms():
         return forms
 
     out.append(("Quadrilateral", (2, 3), quad))
+
+    def treg(v, d):
+        # a regular polygon moved by a map that is no similarity (non-uniform scaling and shear): the result keeps the class RegularPolygon but
+        # is an ordinary polygon; its measures are those of Polygon(*vertices)
+        from geometer import affine_transform
+
+        c = [float(x) for x in v[:d]]
+        r = abs(v[3]) / 2 + 1.0
+        n = 3 + abs(v[4]) % 5
+        A = np.eye(d)
+        A[0, 0] = 2.0 + abs(v[5]) % 2
+        A[0, 1] = float(v[6] % 3 - 1)
+        if d == 3:
+            A[2, 2] = 0.5
+            A[1, 2] = float(v[7] % 2)
+            ax = [float(x) for x in v[8:11]]
+            if not any(ax):
+                raise Skip("zero axis")
+            mk = lambda: RegularPolygon(Point(*c), r, n, axis=Point(*ax))  # noqa: E731
+        else:
+            mk = lambda: RegularPolygon(Point(*c), r, n)  # noqa: E731
+        t = affine_transform(A, offset=[float(x) for x in v[11:11 + d]])
+        return [("Polygon(*(t * regular).vertices)", lambda: Polygon(*(t * mk()).vertices)), ("t * RegularPolygon(...)", lambda: t * mk()), ("t.apply(RegularPolygon(...))", lambda: t.apply(mk())),
+                ("Polygon(*[t * v for v in regular.vertices])", lambda: Polygon(*[t * x for x in mk().vertices]))]
+
+    out.append(("TransformedRegularPolygon", (2, 3), treg))
     return out
 
 
